@@ -616,10 +616,10 @@ class Transport(threading.Thread, ClosingContextManager):
         # the logic pubkey auth does re: injecting/checking for certs at
         # runtime
         filtered = self._filter_algorithm("keys")
-        return tuple(
-            filtered
-            + tuple("{}-cert-v01@openssh.com".format(x) for x in filtered)
-        )
+        certs = tuple("{}-cert-v01@openssh.com".format(x) for x in filtered)
+        # a cert variant may itself have been disabled
+        disabled = self.disabled_algorithms.get("keys", [])
+        return tuple(filtered + tuple(x for x in certs if x not in disabled))
 
     @property
     def preferred_pubkeys(self):
